@@ -29,6 +29,9 @@ def mk : IO Handler := do
         dec.set d'
         return showDecRes showUnits r ++ s!" ret {retained d'}"
       | none => return "bad-op"
+    | ["dstate"] =>           -- the whole decoder state, field by field (lengths for the byte lists)
+      let d ← dec.get
+      return s!"first={b2s d.firstPacketReceived} nfrag={d.fragments.length} fsize={d.fragmentsSize} next={d.fragmentNextSeqNum.toNat} annexb={b2s d.annexBMode} nfb={d.frameBuffer.length} fblen={d.frameBufferLen} fbsize={d.frameBufferSize} fbts={d.frameBufferTimestamp.toNat}"
     | ["vframe", us] =>       -- the validity predicate of the theorems, evaluated
       match parseUnits us with
       | some au => return b2s (decide (ValidFrame au))
